@@ -47,20 +47,71 @@ def prbm_params(ctx, nv, nh, na, phase=False):
     return W, U, b, c, d
 
 
-def set_brbm(rbm, W, b, c):
+# ---- writing parameters into live networks ("aged" objects, rotating write mechanisms) --------------------------
+# Every check writes its parameters through set_brbm / set_prbm.  So that no check only ever meets a FRESH network
+# whose parameters were written in one particular way, these two functions (i) first USE the network with the
+# parameters it currently has (energies, conditionals, partition function on the full space — anything the library may
+# memoise), and (ii) rotate over the legal ways of changing a parameter: `.data = new`, `.data.copy_(new)`,
+# `copy_` under no_grad, and rebinding the attribute to a new nn.Parameter.  A cache / stored handle keyed on object
+# identity, storage pointer, version counter or shape that is not invalidated by one of these is then visible to
+# every property's oracle.  Deterministic (round-robin counter), and the torch RNG is left untouched.
+_WRITES = itertools.count()
+
+
+def _touch(rbm):
+    try:
+        import torch
+        nv = int(rbm.num_visible)
+        if nv > 6:
+            return
+        with torch.random.fork_rng(devices=[]):
+            v = torch.tensor(all_states(nv), dtype=torch.double)
+            rbm.effective_energy(v)
+            rbm.effective_energy(v[0])
+            rbm.prob_h_given_v(v)
+            rbm.partition(v)
+            rbm.effective_energy_gradient(v[: min(3, len(v))])
+            if hasattr(rbm, "gamma"):
+                rbm.gamma(v, v.flip(0), eta=+1)
+                rbm.gamma(v, v.flip(0), eta=-1)
+                rbm.mixing_term(v)
+                rbm.prob_a_given_v(v)
+    except Exception:
+        pass                      # ageing must never decide anything; the check's own calls will report a broken method
+
+
+def _write(rbm, name, arr):
     import torch
-    rbm.weights.data = torch.tensor(W, dtype=torch.double)
-    rbm.visible_bias.data = torch.tensor(b, dtype=torch.double)
-    rbm.hidden_bias.data = torch.tensor(c, dtype=torch.double)
+    t = torch.tensor(arr, dtype=torch.double)
+    p = getattr(rbm, name)
+    mode = next(_WRITES) % 4
+    if tuple(p.shape) != tuple(t.shape) or p.dtype != t.dtype:
+        mode = 0
+    if mode == 0:
+        p.data = t
+    elif mode == 1:
+        p.data.copy_(t)
+    elif mode == 2:
+        with torch.no_grad():
+            p.copy_(t)
+    else:
+        setattr(rbm, name, torch.nn.Parameter(t, requires_grad=p.requires_grad))
+
+
+def set_brbm(rbm, W, b, c):
+    _touch(rbm)
+    _write(rbm, "weights", W)
+    _write(rbm, "visible_bias", b)
+    _write(rbm, "hidden_bias", c)
 
 
 def set_prbm(rbm, W, U, b, c, d):
-    import torch
-    rbm.weights_W.data = torch.tensor(W, dtype=torch.double)
-    rbm.weights_U.data = torch.tensor(U, dtype=torch.double)
-    rbm.visible_bias.data = torch.tensor(b, dtype=torch.double)
-    rbm.hidden_bias.data = torch.tensor(c, dtype=torch.double)
-    rbm.aux_bias.data = torch.tensor(d, dtype=torch.double)
+    _touch(rbm)
+    _write(rbm, "weights_W", W)
+    _write(rbm, "weights_U", U)
+    _write(rbm, "visible_bias", b)
+    _write(rbm, "hidden_bias", c)
+    _write(rbm, "aux_bias", d)
 
 
 def make_positive(ctx, nv, nh, zero_bias=False):
